@@ -38,10 +38,30 @@ def nontrivial(pre, s):
     return None
 
 
+def parse_sig(t, step, clause):
+    a = t["steps"][0]["a"]
+    return "C15|NsParse|%s|declared=%s|late=%s|use=%s" % (clause, a["declared"], a["late"], a["use"])
+
+
+def parse_corrupt(t):
+    o = t["steps"][0]["post"]
+    if o["out"] == "ok":
+        o["mapping"] = o["mapping"] + [["zz", "u9"]]
+        return t
+    return None
+
+
 def main(tier, seed):
+    from harness import matrix
+    from harness.report import Run
     q = tier == "quick"
+    run = Run("C15", tier, seed)
+    rows = matrix.enumerate_rows(run, "NsParse", "NsParse.cfg")
+    matrix.judge(run, "NsParseTrace", "adapters.namespaces", "run_parse_row", rows, parse_sig, parse_corrupt,
+                 what=lambda t, s: repr(t["steps"][0]["post"]["text"]), nontrivial=lambda t: json.dumps(t["item"], sort_keys=True))
+    run.notes["late_namespace_rows"] = len(rows)
     return history.check(
-        "C15", tier, seed, machine="Namespaces", mc_cfg="Namespaces_%s.cfg" % tier, gen_cfg="Namespaces_gen_%s.cfg" % tier,
+        "C15", tier, seed, run=run, variants=[{}, {}, {"comments": True}], machine="Namespaces", mc_cfg="Namespaces_%s.cfg" % tier, gen_cfg="Namespaces_gen_%s.cfg" % tier,
         trace_module="NamespacesTrace", adapter="adapters.namespaces", sig=sig, corrupt=corrupt,
         tour_cap=12000 if q else 200000, n_walks=300 if q else 4000, walk_len=15 if q else 30, nontrivial=nontrivial,
         rule="transition tour over the intended-semantics machine (<=2 namespace rules, <=1 (quick) / 2 selectors in the generation "
